@@ -26,6 +26,9 @@ CLAIMED = {
  "C09": ("exhaustive truth tables of extracted guard formulas (delay x suppress x verified x error) + who-may-call + def-use flow (go/ssa)",
          "Decides the whole delayed-verification state machine structurally: the four Verify call sites and the exact guard of each; the skip flag's only origin (DelayInitialVerification) and only transition (!helper, called only while skipping; helper true iff not verifiable or Verify()==nil); that every success reply/return carries the (config, serial) of the one ViewVersion call that was verified and every failure a nil config; globalCBsSuppressed == skipVerify && option; source errors delivered iff !(skipVerify && option); the callback loop filters nothing else.",
          "Not decided: what user Verify does; the 'indeterminate on context expiry' case the API documents. Trusted: go/ssa lowering."),
+ "C01": ("universally-quantified reaching-condition checks over all reflect kinds + sibling agreement (Pointerify vs overlay walk) + induction-variable flow + dominance (go/ssa)",
+         "Decides argument-order stacking (slot i from sources[i], forward range in compose onto one base), that no mutation in the leaf overlay is reachable for a nil overlay of any kind Pointerify can emit, that every retained pointerified field type is nil-able, that Pointerify and the overlay walk omit exactly the same fields (same OmitField object, same {Chan,Func} set) with the overlay index advancing exactly on retained fields, and that every call of the struct merge has a dominating struct-kind fact for its base (the 'non-struct call' panic precondition).",
+         "Not decided: leaf values computed by reflection for arbitrary types/values. Assumes the documented Source contract (pointerified twin) and that T is a struct type."),
 }
 
 NOT_YET = {}
